@@ -928,9 +928,10 @@ static void DecodeWAIT(Word Index) {
                                &ArgStr[1], 4, UInt32, &OK, &Flags)
                        - (EProgCounter() + 8);
                 if (OK) {
-                    if (mSymbolQuestionable(Flags)
+                    if (!mSymbolQuestionable(Flags)
                         && ((Dist > 0x7fffff) || (Dist < -0x800000))) {
                         WrError(ErrNum_JmpDistTooBig);
+                        OK = False;
                     } else {
                         DAsmCode[1] = Dist & 0xffffff;
                     }
